@@ -67,17 +67,34 @@ def build_coq(clean=False):
         return rc == 0, out + err, 'cd coq && ' + cmd
 
 
-FORBIDDEN = re.compile(r'\b(Admitted|admit|Axiom|Parameter|Conjecture|Unset Guard|bypass_check|type-in-type|'
-                       r'Admit Obligations|impredicative-set)\b')
+FORBIDDEN = re.compile(r'\b(Admitted|admit|Axioms?|Parameters?|Conjectures?|Unset Guard|Unset Positivity|Unset Universe|bypass_check|'
+                       r'type-in-type|Admit Obligations|impredicative-set)\b')
+SECTION_VAR = re.compile(r'^\s*(Local\s+|Global\s+)?(Variables?|Hypothes[ie]s|Context)\b')
 
 
 def scan_forbidden():
+    """Forbidden constructs anywhere in the development (comments of one line are ignored), and Variable / Hypothesis /
+    Context declarations outside a Section (those would be axioms)."""
     hits = []
     for f in coq_sources() + [os.path.join(COQ, '_CoqProject')]:
+        depth = 0
+        in_comment = 0
         for i, line in enumerate(open(f, encoding='utf-8', errors='replace'), 1):
             code = re.sub(r'\(\*.*?\*\)', '', line)
+            # multi-line comments: track nesting roughly
+            opens, closes = code.count('(*'), code.count('*)')
+            was_in = in_comment > 0
+            in_comment = max(0, in_comment + opens - closes)
+            if was_in or (opens > closes):
+                continue
             if FORBIDDEN.search(code):
                 hits.append('%s:%d: %s' % (os.path.relpath(f, ROOT), i, line.strip()))
+            if re.match(r'^\s*Section\s+\w+\s*\.', code):
+                depth += 1
+            elif re.match(r'^\s*End\s+\w+\s*\.', code) and depth > 0:
+                depth -= 1
+            elif depth == 0 and SECTION_VAR.match(code):
+                hits.append('%s:%d: outside a Section: %s' % (os.path.relpath(f, ROOT), i, line.strip()))
     return hits
 
 
